@@ -63,4 +63,41 @@ let () =
            (hash_digest t.t_hash) (chain_digest t.t_chain))
     | _ -> "badargs")
 
+
+(* ---- dictCtx search session: working stream freshly anchored at 64 KB, dictionary context tables given by the caller ---- *)
+let ds_mem = ref (mem_of_list (z 0) [])
+let ds_dn = ref 0
+let ds_tabs = ref { t_hash = empty0; t_chain = { ct_m = empty0; ct_def = z 0 }; t_ntu = z 65536 }
+let ds_dht = ref empty0
+let ds_dct = ref { ct_m = empty0; ct_def = z 0 }
+let ds_vrd p = get !ds_mem (Big_int_Z.sub_big_int p (z (65536 - !ds_dn)))
+let le_at (s : string) (off : int) (w : int) : int =
+  let v = ref 0 in
+  for k = w - 1 downto 0 do v := (!v lsl 8) lor (hexval s.[2*(off+k)] * 16 + hexval s.[2*(off+k)+1]) done; !v
+
+let () =
+  (* dsinit <dict> <prefix> <dictCtx.hashTable hex> <dictCtx.chainTable hex> *)
+  reg "dsinit" (function [d; p; hh; ch] ->
+      let d = bytes_of_hex d and p = bytes_of_hex p in
+      ds_mem := mem_of_list (z 0) (d @ p); ds_dn := List.length d;
+      ds_tabs := { t_hash = empty0; t_chain = { ct_m = empty0; ct_def = z 0 }; t_ntu = z 65536 };
+      let h = ref empty0 in
+      for i = 0 to 32767 do let v = le_at hh (4*i) 4 in if v <> 0 then h := set !h (z i) (z v) done;
+      ds_dht := !h;
+      let c = ref { ct_m = empty0; ct_def = z 0 } in
+      for i = 0 to 65535 do let v = le_at ch (2*i) 2 in if v <> 0 then c := ctset !c (z i) (z v) done;
+      ds_dct := !c; "ok"
+    | _ -> "badargs");
+  (* dssearch ipOff lowOff highOff longest nb pa swap fav : LZ4HC_InsertAndGetWiderMatch with dict == usingDictCtxHc *)
+  reg "dssearch" (function [ip; lo; hi; lg; nb; pa; sw; fv] ->
+      let b = z 65536 in let a x = Big_int_Z.add_big_int b (zs x) in
+      (match insertAndGetWiderMatch_dict ds_vrd b b !ds_dht !ds_dct b (z (65536 + !ds_dn)) !ds_tabs (a ip) (a lo) (a hi) (zs lg) (zs nb)
+               (pa = "1") (sw = "1") (fv = "1") with
+       | None -> "undef"
+       | Some (m, t) ->
+         ds_tabs := t;
+         Printf.sprintf "%s %s %s ntu=%s ht=%s ct=%s" (zstr m.hm_off) (zstr m.hm_len) (zstr m.hm_back) (zstr t.t_ntu)
+           (hash_digest t.t_hash) (chain_digest t.t_chain))
+    | _ -> "badargs")
+
 let () = Common.main ()
